@@ -108,3 +108,15 @@ Theorem sem2_bp_b_iff {RG : ReGroups} re_match parse_float json_get hash_labels 
   sem2_bp_b re_match parse_float json_get hash_labels q c d res = true
   <-> Permutation res (log_rows2 re_match parse_float json_get hash_labels q c d) /\ ts_sorted (c_asc c) res.
 Proof. unfold sem2_bp_b. rewrite andb_true_iff, perm_b_iff, ts_sorted_b_iff. reflexivity. Qed.
+
+(* fragment 3 (| line_format: the line travels with the state): the oracles that judge every case of the search *)
+Theorem sem3_b_iff {RG : ReGroups} re_match parse_float json_get hash_labels q c d res :
+  sem3_b re_match parse_float json_get hash_labels q c d res = true
+  <-> logql_sem3 re_match parse_float json_get hash_labels q c d res.
+Proof.
+  unfold sem3_b, logql_sem3. destruct (c_limit c =? 0)%Z; [apply perm_b_iff|apply topk_b_iff].
+Qed.
+Theorem sem3_bp_b_iff {RG : ReGroups} re_match parse_float json_get hash_labels q c d res :
+  sem3_bp_b re_match parse_float json_get hash_labels q c d res = true
+  <-> Permutation res (log_rows3 re_match parse_float json_get hash_labels q c d) /\ ts_sorted (c_asc c) res.
+Proof. unfold sem3_bp_b. rewrite andb_true_iff, perm_b_iff, ts_sorted_b_iff. reflexivity. Qed.
